@@ -26,7 +26,7 @@ for p in props:
             "thorough_cmd": "./check %s --tier thorough" % pid,
             "evidence_file": "evidence/%s.json" % pid,
             "replay_cmd_template": "./check replay {path}",
-            "engine": "kani",
+            "engine": "kani+mir2smt" if pid == "C01" else "kani",
             "level_claimed": {
                 "category": "model_checking",
                 "text": meta.get("level_text", "Bounded model checking of the compiled code of /repo: every harness is one "
@@ -57,6 +57,8 @@ man = {
     "engines": [
         {"name": "kani", "path": "harness", "serves_properties": [c["property_id"] for c in checks],
          "kind_free_text": "Kani 0.68 proof harnesses (CBMC 6.11 + CaDiCaL) over the real crate, driven by ./check; native replay binary for counterexamples"},
+        {"name": "mir2smt", "path": "mir2smt", "serves_properties": ["C01"],
+         "kind_free_text": "rustc MIR of the 24 word primitives of src/utils.rs translated to SMT-LIB bit-vectors; obligations discharged by z3 4.8.12 and re-checked by cvc5 1.0; counterexamples replayed on a native build of the same source file; run by ./check C01 alongside the Kani harnesses"},
     ],
     "checks": checks,
     "not_applicable": na,
